@@ -48,6 +48,22 @@ BUILT = {
     technique="deterministic simulation: depth windows swept completely per run across slice and reader schedules in crash-isolated workers on an 8 MiB stack; process layer runs the real binaries",
     text="Every depth in limit-6..limit+6 for each format and shape is executed as slice and under three reader schedules, verdicts must agree and be monotone; far-beyond depths up to 10^6 must be rejected without killing the worker; MessagePack's 1023/1024 boundary and the slice-mode size calculator are compared with rmp_serde.",
     note="Depth is an input dimension; the simulator contributes supply modes, schedules and crash-isolated observation of the real stack. YAML flow-mapping shapes are limited to depths that libyaml's quadratic scanner finishes within the watchdog."),
+  "C13": dict(level="exploration", ref="§7 C13",
+    technique="deterministic simulation of the process environment: the real binary under an LD_PRELOAD syscall interposer (tty answer, unreadable/unmappable inputs, short reads/writes) against an executable model of the documented CLI; argv vectors up to 2 tokens enumerated",
+    text="Every argument vector of <= 2 tokens over the stated vocabulary is executed against the real debug/release binary and compared with a small model of the command line plus the library's per-input results; longer vectors and environment faults (terminal, EIO, mmap denied) are sampled. The argv dimension is plain enumeration; the simulator contributes the environment and race-free observation of exit status, stdout, stderr and which fds were read.",
+    note="Trusted: the 60-line CLI model (lexopt conventions), the interposer returning what the kernel would return, the library as the per-input oracle."),
+  "C14": dict(level="exploration", ref="§7 C14",
+    technique="deterministic simulation of the process environment: real binary under the syscall interposer (mmap granted/denied, stdin with scheduled short reads) compared with the in-process library for the format resolved by -f / extension / detection",
+    text="Seeded combinations of -f, extension spellings (letter case, multi-dot, hidden, misleading), content, supply mode and '-' positions; stdout must equal the library's output and fd 0 must be consumed for at most one input (interposer log).",
+    note="Trusted: the re-implemented extension rule from the manual; mmap denial stands in for FIFOs (same code path)."),
+  "C15": dict(level="fault_enumeration", ref="§7 C15",
+    technique="deterministic simulation with fault injection at process level: the failing input is moved through every position of each drawn input list, with every failure kind of the statement plus injected read errors; oracle over stdout bytes, interposer write log and wait status",
+    text="For each sampled input list (sizes below/around/above the 8 KiB stdout buffer) the failing input is enumerated over every position; the complete translations of all earlier inputs must be on stdout when xt exits 1, and all output when it exits 0.",
+    note="Trusted: the library's output for the same input sequence as expectation; stdout is a regular file written through the interposer."),
+  "C16": dict(level="fault_enumeration", ref="§7 C16",
+    technique="deterministic simulation with fault injection at process level: fd 1 starts failing with EPIPE/ENOSPC/EIO after k accepted bytes, k enumerated densely around 0 and the buffer/pipe size boundaries for each drawn workload",
+    text="For each sampled workload the point at which the consumer goes away is enumerated (0..64, +-2 around 1 KiB/4 KiB/8 KiB/16 KiB/64 KiB, geometric beyond); EPIPE must end in death by SIGPIPE with empty stderr and exactly the first k expected bytes on stdout, other errnos in exit 1 with an 'xt error' message.",
+    note="Trusted: the interposer's errno equals what the kernel returns on a closed pipe/full device; fidelity runs with a real closing pipe and /dev/full bound that trust."),
 }
 
 NOT_YET = "check not built yet (work in progress; see DESIGN.md §7 for the planned simulation)"
